@@ -1,10 +1,12 @@
 #!/bin/bash
-# Parallel variant of seeded_sweep.sh: usage seeded_sweep_par.sh [tier] [shards]
+# Parallel variant of seeded_sweep.sh: usage seeded_sweep_par.sh [tier] [shards] [name-regex]
+# With a name-regex (e.g. '^C(03|11)-') only those changes are run and their lines replace the old ones in RESULTS.md.
 # Runs every seeded change against its property's check (and also_checked_by ones) and writes seeded/RESULTS.md.
-tier="${1:-quick}"; n="${2:-4}"
+tier="${1:-quick}"; n="${2:-4}"; pat="${3:-}"
 cd /verif
 tmp=$(mktemp -d /tmp/sweep-XXXXXX)
 ls -d seeded/C*-*/ | sort -V > $tmp/all
+if [ -n "$pat" ]; then grep -E "seeded/$(echo "$pat" | sed 's/^\^//')" $tmp/all > $tmp/sel; mv $tmp/sel $tmp/all; fi
 split -n r/$n $tmp/all $tmp/shard.
 for sh in $tmp/shard.*; do
   ( while read d; do
@@ -25,8 +27,13 @@ wait
   echo "Each seeded change was applied to a scratch copy of /repo and the owning property's check was run with VERIF_REPO pointing at the copy. exit=1 means the check reported a VIOLATION (caught)."
   echo
   echo '```'
-  cat $tmp/shard.*.out | sort -V
+  if [ -n "$pat" ] && [ -f seeded/RESULTS.md ]; then
+    { grep -E '^C[0-9]+-[0-9]+ \|' seeded/RESULTS.md | grep -vE "$pat"; cat $tmp/shard.*.out; } | sort -V
+  else
+    cat $tmp/shard.*.out | sort -V
+  fi
   echo '```'
-} > seeded/RESULTS.md
+} > seeded/RESULTS.md.new
+mv seeded/RESULTS.md.new seeded/RESULTS.md
 rm -rf $tmp
 grep -c "exit=1" seeded/RESULTS.md
